@@ -227,3 +227,5 @@ func verif_C04_pipeline() {
 }
 
 func verif_C04_line8() { verifLine8Harness("C04") }
+
+func verif_C04_line_mixed() { verifLineMixedHarness("C04") }
